@@ -30,7 +30,8 @@ RULE = ("histories of API actions {create options object, set an option (legal /
         "alphabet; workers run many histories back-to-back in one process (half of them with a random PYTHONHASHSEED), so "
         "state can accumulate over thousands of actions. Every conversion result, normalised by first-occurrence renaming "
         "of __ol_ identifiers, is compared with the reference computed in fresh processes. Distinct by history; "
-        "non-trivial iff the history contains a conversion preceded by at least one state-changing action.")
+        "non-trivial iff the history contains a conversion preceded by at least one state-changing action."
+        ' The pool contains programs with private (mangled) names and programs in which one spelling is a global in one class-body lambda and a closure variable in another.')
 ASSUMPTIONS = ["reference = the same call in a fresh process: every reference cell is computed in a fork()ed child of a process that only imported oneliner; four such processes with different hash seeds must agree",
                "normalisation: every identifier matching __ol_\\w+ is renamed by order of first occurrence"]
 EXHAUSTIVE = {"quick": False, "thorough": False}
